@@ -706,6 +706,25 @@ def c14(tier, rng, fam='C14'):
                     b.step('recv', c=c)
             b.q()
         out.append(b.done())
+    # a Send whose write is refused (the connection stays up) ends the stream; the stream's read loop may
+    # finish anywhere relative to the teardown done by that Send - in particular between the
+    # unregistration and the cancellation of the stream's context.  The server must be told every time.
+    for kind in ('bidi', 'cs'):
+        for window in (False, True):
+            b = B(fam, 'failed send (%s), read loop ends %s' % (kind, 'inside the teardown window' if window else 'after the teardown'), ser=True)
+            b.step('sopen', c=1, kind=kind, hp=[dict(o='ctxwait'), ret(code=1, msg='gone')])
+            b.q()
+            if window:
+                b.step('arm', gate='cs.teardown.window', n=1)
+            b.step('fault', what='cwrite1')
+            b.step('send', c=1, pay='x')
+            b.q()
+            if window:
+                b.step('rel', gate='cs.teardown.window')
+            b.step('recv', c=1)
+            b.q()
+            b.step('ucall', c=2, pay='after', hp=[ret(pay='fine')])
+            out.append(b.q().done())
     return out
 
 
